@@ -508,6 +508,17 @@ func handleZMPOP(params internal.HandlerFuncParams) ([]byte, error) {
 
 	keyExists := params.KeysExist(params.Context, keys.WriteKeys)
 
+	// Every token after the keys must be MIN, MAX or COUNT followed by its value.
+	for i := 1 + len(keys.WriteKeys); i < len(params.Command); i++ {
+		switch strings.ToLower(params.Command[i]) {
+		case "min", "max":
+		case "count":
+			i++
+		default:
+			return nil, fmt.Errorf("invalid option %s", params.Command[i])
+		}
+	}
+
 	count := 1
 	policy := "min"
 	modifierIdx := -1
